@@ -12,6 +12,7 @@
 import Driver.Proto
 import DecimalModel.DecOps
 import DecimalModel.DivRec
+import DecimalModel.Radix
 import DecimalModel.AsmRoutines
 
 namespace Driver
@@ -59,6 +60,8 @@ def kernVec (name : String) (s r : Nat) (x y : List Nat) : Option ((List Nat × 
   | "mulAdd10VWW" => some (mulAdd10VWW x s r, fun (z, c) => wf z && z.length == n && natOf z + c * B ^ n == natOf x * s + r)
   | "addMul10VVW" => some (addMul10VVW y x s 0, fun (z, c) => wf z && z.length == n && natOf z + c * B ^ n == natOf y + natOf x * s)
   | "div10VWW" => some (div10VWW x s r, fun (z, c) => wf z && z.length == n && s != 0 && natOf z * s + c == r * B ^ n + natOf x && c < s)
+  -- the binary kernel of dec.setNat (64-bit words): model = DecimalModel/Radix.lean, spec = arithmetic in base 2^64
+  | "divWVW" => some (divWVW x r s, fun (z, c) => z.all (· < W) && z.length == n && s != 0 && binOf z * s + c == r * W ^ n + binOf x && c < s)
   | _ => none
 
 /-- The same kernel executed by the Lean model of the REGENERATED assembly (tools/gen asm.go →
